@@ -116,7 +116,7 @@ CHECKS["C16"] = dict(engine="tlc+tars2go+codecdrive",
    technique="TLA+ token-level pushdown automaton of the IDL (IdlGrammar.tla, checked exhaustively to stack depth 3) whose transitions become one run of the tars2go binary each, judged by TLC (Oracle_IdlGrammar); a TLA+ generative model of valid programs (IdlPrograms.tla) sampled by TLC, rendered, generated, compiled and pushed through the TarsSchema codec oracles with independently extracted schemas; regeneration diff of the checked-in bindings",
    category="model_checking",
    text="Clause 1: TLC samples abstract programs (modules, enums, consts, structs with members of every type incl. nested containers, cross-module references, defaults, fixed arrays, interfaces); each is rendered to IDL, run through the tars2go built from the working tree (must terminate, exit 0), compiled in batches, enum constants checked, and the generated codecs judged by Oracle_Schema / Oracle_Dec (C03/C04/C06 oracles) against schemas from lib/idl2schema.py. Clause 2: for every configuration x token of the automaton one run of the binary (viable token + completion, soft token, stray token, end of input) plus random bytes, token soup and cut/mutated programs: it must terminate within 5 s; exit 0 must come with compiling output; TLC's Parse decides what is in the language. Clause 3: tars/protocol/res/*.tars regenerated with the Makefile's flags and compared with the checked-in files after gofmt and banner normalisation.",
-   design_ref="5/C16", note="Trusted: IdlGrammar.tla as the definition of the language; go build as the judge of 'compiles'; lenient acceptances whose output compiles are observations. Call transparency of generated proxies is C01's subject (compiled only here).")
+   design_ref="5/C16", note="Trusted: IdlGrammar.tla as the definition of the language; go build as the judge of 'compiles'; lenient acceptances whose output compiles are observations. Call transparency: every operation of every sampled program and of an exhaustive enumeration of parameter-direction sequences (IdlSignatures.tla: every in/out order up to 4-5 parameters, with and without return value) is called through the generated proxy -> generated Dispatch -> recording servant in-process and judged by Oracle_Call (inputs delivered, outputs and return value brought back, servant entered once, one-way); the real transport under such calls is C01's subject.")
 
 MUX_NOTE = "Trusted: hooks in doInvoke/Recv (self-tested), test-only exports of the counters, the harness peer. Wall clock appears only in C09's deadline judgement (dial bound + 500 ms slack + 5 %, overruns must reproduce 3 times)."
 CHECKS["C08"] = dict(engine="tlc+muxdrive",
